@@ -18,7 +18,8 @@ write (C03 `patched_field_designates`, C17) this is the frame argument for reloc
 "after relocate B every entry's field designates its target" (the fold over the entry list with these disjointness facts, incl.
 the address-table section); that composition is evaluated by the monitor on every explored program x base.
 -/
-import AsmjitVerif.Lemmas.RelSlots
+import AsmjitVerif.Lemmas.TabInv
+import AsmjitVerif.Lemmas.PayInv
 import AsmjitVerif.Props.C04
 import AsmjitVerif.Props.C03E
 namespace AsmjitVerif.CodeHolder
@@ -184,20 +185,36 @@ theorem reloc_rel_correct (arch : Arch) (base0 : BitVec 64) (ops : List Op) (hop
     congr 1
     ac_rfl
 
+/-- **address-table state invariants over programs.** After any program of assembling operations followed by `flatten; resolve`:
+the `.addrtab` section id (if the table exists) is a valid section index, and no table entry has a slot assigned
+(`add_address_to_address_table` creates entries without one; only `relocate_to_base` assigns slots). -/
+theorem addr_table_ready (arch : Arch) (base0 : BitVec 64) (ops : List Op) (hops : ∀ op ∈ ops, op.early = true) :
+    TabIn (run (State.init arch base0) (ops ++ [.flatten, .resolve])) ∧ TabNone (run (State.init arch base0) (ops ++ [.flatten, .resolve])) := by
+  obtain ⟨hi0, hn0⟩ := inv_tabs_init arch base0
+  obtain ⟨hi, hn⟩ := run_tabs _ ops hops (inv_init arch base0) hi0 hn0
+  have hinv := refs_invariant arch base0 ops hops
+  have hinv1 := step_inv _ .flatten rfl hinv
+  have e : run (State.init arch base0) (ops ++ [.flatten, .resolve]) = (resolve (step (run (State.init arch base0) ops) .flatten).1).1 := by
+    rw [run_append]; simp [run, step]
+  rw [e]
+  constructor
+  · exact tabIn_grow (tabIn_grow hi (step_grow _ .flatten rfl hinv)) (grow_resolve _ hinv1)
+  · have h1 := step_tabNone _ .flatten (fun _ => trivial) (fun b e => by cases e) hn
+    have h2 := step_tabNone _ .resolve (fun _ => trivial) (fun b e => by cases e) h1
+    simpa [step] using h2
+
 /-- **the address-table form, end to end.** For every program of the menu followed by `flatten; resolve` in 64-bit mode and every
 base `B`: if `relocate_to_base(B)` returns kOk then every X64AddressEntry whose target no rel32 reaches has become
 `FF /2` / `FF /4 [rip + rel32]`, that rel32 reaches slot `k` of the address table (`addr_table_slot_reached` turns the decoded value
 into the run-time address `B + table offset + 8k`), and slot `k` lies inside the table's final buffer and holds the target - to the
 end of the fold: slots are assigned once, never collide, later iterations write other slots or the same value
 (`Lemmas/RelSlots.lean`: `SlotInv`, `relocLoop_slots`).
-Hypotheses on the state before the call, not yet discharged over programs: the `.addrtab` section id is a valid section
-(`hin`) and no table entry has a slot yet (`hnone`; `add_address_to_address_table` creates entries without one). -/
+The two facts about the state before the call - the `.addrtab` id is a valid section, no entry has a slot yet - are the
+invariant `addr_table_ready` of every program. -/
 theorem reloc_table_correct (arch : Arch) (base0 : BitVec 64) (ops : List Op) (hops : ∀ op ∈ ops, op.early = true)
     (B : BitVec 64) (s' : State) (n : Nat) (ats : Nat)
     (h8 : (run (State.init arch base0) (ops ++ [.flatten, .resolve])).arch.regSize = 8)
     (hats : (run (State.init arch base0) (ops ++ [.flatten, .resolve])).addrTabSec = some ats)
-    (hin : ∃ t0, (run (State.init arch base0) (ops ++ [.flatten, .resolve])).secs[ats]? = some t0)
-    (hnone : ∀ e ∈ (run (State.init arch base0) (ops ++ [.flatten, .resolve])).addrTab, e.slot = none)
     (h : relocate (run (State.init arch base0) (ops ++ [.flatten, .resolve])) B = (s', .ok, n)) :
     let s := run (State.init arch base0) (ops ++ [.flatten, .resolve])
     ∀ re ∈ s.relocs, re.type = .x64AddressEntry → relocValue { s with base := B } B s.secs re = none →
@@ -210,13 +227,59 @@ theorem reloc_table_correct (arch : Arch) (base0 : BitVec 64) (ops : List Op) (h
         RDecodes s'.secs re.rgn (secOffset s.secs ats + BitVec.ofNat 64 (k * 8) -
           (secOffset s.secs re.srcSec + BitVec.ofNat 64 re.srcOff + BitVec.ofNat 64 re.regionSize)) ∧
         s'.secs[ats]? = some tF ∧ k * 8 + 8 ≤ tF.buf.length ∧ loadLE tF.buf (k * 8) 8 = some re.payload.toNat :=
-  relocate_table_spec _ (relocs_own_their_regions_final arch base0 ops hops) B s' n ats h8 hats hin hnone h
+  relocate_table_spec _ (relocs_own_their_regions_final arch base0 ops hops) B s' n ats h8 hats
+    (by
+      have hlt := (addr_table_ready arch base0 ops hops).1 ats hats
+      exact ⟨_, List.getElem?_eq_getElem hlt⟩)
+    (addr_table_ready arch base0 ops hops).2 h
+
+/-- **payload_label_link.** Invariant of every program (`Lemmas/PayInv.lean`, `PInv`): a relocation entry created for a label
+reference (`embed_label`, the 32-bit absolute `[label + a]` operand; ghost field `gl = (label, addend)`) either still waits
+on its label's fixup chain - exactly once, with no target section and `payload = addend` - or its label is bound at
+`(sec, off)` and `bind_label`'s payload adjustment gave it `tgtSec = sec`, `payload = addend + off`. -/
+theorem payload_label_link (arch : Arch) (base0 : BitVec 64) (ops : List Op) (hops : ∀ op ∈ ops, ∀ b, op ≠ .relocate b) :
+    PInv (run (State.init arch base0) ops) :=
+  run_pinv _ ops hops (pinv_init arch base0)
+
+/-- **reloc_label_address.** End to end for label-address entries: after `program ++ [flatten, resolve]` and a successful
+`relocate_to_base(B)`, every RelToAbs entry made for label `l` with addend `a` has its label bound at some `(sec, off)`, and
+the value word in the relocated image decodes to `a + off + (B + offset of sec)` - the absolute address of the label (plus
+the addend) at base `B`. -/
+theorem reloc_label_address (arch : Arch) (base0 : BitVec 64) (ops : List Op) (hops : ∀ op ∈ ops, op.early = true)
+    (B : BitVec 64) (s' : State) (n : Nat)
+    (h : relocate (run (State.init arch base0) (ops ++ [.flatten, .resolve])) B = (s', .ok, n))
+    (re : Reloc) (hre : re ∈ (run (State.init arch base0) (ops ++ [.flatten, .resolve])).relocs) (hty : re.type = .relToAbs)
+    (l : Nat) (a : BitVec 64) (hgl : re.gl = some (l, a)) :
+    ∃ sec off tgt, (run (State.init arch base0) (ops ++ [.flatten, .resolve])).labels[l]? = some (.bound sec off) ∧
+      (run (State.init arch base0) (ops ++ [.flatten, .resolve])).secs[sec]? = some tgt ∧
+      RDecodes s'.secs re.rgn (a + off + (B + tgt.offset)) := by
+  obtain ⟨t, tgt, ht, hs, hd⟩ := reloc_abs_correct arch base0 ops hops B s' n h re hre hty
+  have hp : PInv (run (State.init arch base0) (ops ++ [.flatten, .resolve])) := by
+    apply payload_label_link
+    intro op hop b hb
+    rcases List.mem_append.1 hop with h1 | h1
+    · have := hops op h1; rw [hb] at this; cases this
+    · simp at h1; rcases h1 with h1 | h1 <;> (rw [h1] at hb; cases hb)
+  obtain ⟨i, hi⟩ := List.getElem?_of_mem hre
+  rcases hp.link i re l a hi hgl with ⟨fx, _, h2, _, _⟩ | ⟨sec, off, h1, h2, h3⟩
+  · rw [h2] at ht; cases ht
+  · rw [h2] at ht
+    have e : sec = t := Option.some.inj ht
+    rw [← e] at hs
+    exact ⟨sec, off, tgt, h1, hs, by rw [← h3]; exact hd⟩
 
 /-- the hypotheses of `reloc_table_correct` are met by a concrete program (x86-64 `call 0x123456789abc` far out of reach),
 and relocation to 0x10000 succeeds -/
 example :
     let s := run (State.init .x64 noBase) ([.jmpAbs .call .dflt 0x123456789abc#64] ++ [.flatten, .resolve])
     s.arch.regSize = 8 ∧ s.addrTabSec = some 1 ∧ (s.secs[1]?).isSome ∧ (∀ e ∈ s.addrTab, e.slot = none) ∧
+    (relocate s 0x10000#64).2.1 = .ok := by decide
+
+/-- non-vacuity of `reloc_label_address`: an embedded address of a label bound later (at offset 8); the entry is linked to
+the label, was adjusted by `bind_label`, and relocation to 0x10000 succeeds -/
+example :
+    let s := run (State.init .x64 noBase) ([.newLabel, .elabel 0 8, .bind 0] ++ [.flatten, .resolve])
+    s.relocs.map (fun r => (r.type, r.gl, r.tgtSec, r.payload)) = [(.relToAbs, some (0, 0#64), some 0, 8#64)] ∧
     (relocate s 0x10000#64).2.1 = .ok := by decide
 
 /-- non-vacuity: three relocation entries (embedded label address, absolute call through the table, 8-byte label delta)
